@@ -71,6 +71,9 @@ class StackModel(object):
         self.layers = stack.get("layers", [])
 
     def lname(self, i):
+        names = getattr(self, "names", None)
+        if names:
+            return names[i]
         return "%s.L%d" % (self.exname, i)
 
     def run(self, futname, sub):
@@ -198,7 +201,18 @@ class StackModel(object):
             return res
         v = res.value
         if isinstance(v, dict) and "!fut" in v:
-            return v["!fut"]
+            inner = v["!fut"]
+            if inner.kind == "src":
+                # a future the program completes later: {"name": ["value"|"error"|"cancel"|"never"]}
+                spec = getattr(self, "inner", {}).get(inner.value, ["never"])
+                if spec[0] == "value":
+                    return V(["sv", inner.value])
+                if spec[0] == "error":
+                    return E(spec[1] if len(spec) > 1 else "E2", ["src", inner.value])
+                if spec[0] == "cancel":
+                    return Outcome("c")
+                return Outcome("pending")
+            return inner
         return E("TypeError", None)
 
     def _fn(self, b, name, arg):
@@ -209,6 +223,15 @@ class StackModel(object):
             return E(b[1], [name, origin(arg)])
         if k == "retexc":
             return V(arg)
+        if k == "compose":
+            cur = V(arg)
+            for sb in b[1]:
+                cur = self._fn(sb, name, cur.value)
+                if cur.kind != "v":
+                    return cur
+            return cur
+        if k == "fut" and b[1] == "src":
+            return V({"!fut": Outcome("src", value=b[2])})
         if k == "nonfut":
             return V(["nonfuture", name])
         if k == "futarg":
